@@ -413,7 +413,12 @@ def check(ctx):
     pk_nodes = g.find(lambda n: isinstance(n, ast.Call) and dotted(n.func) in ('struct.pack', 'CRTPPacket'))
     lists = lh.params[1:3]
     mx = [s for s in walk_own(lh.node) if isinstance(s, ast.Assign) and norm(s.targets[0]) == 'max_bs_nr']
-    ctx.inst('R3', lh, 'max-id', len(mx) == 1 and fold_in(lh, mx[0].value) == 15, 'highest base-station id must be 15 (16-bit masks)')
+    # ... named by a local, or written where it is compared: every `<list>[-1] > N` test folds to 15
+    tops = [fold_in(lh, c_.comparators[0]) for c_ in ast.walk(lh.node) if isinstance(c_, ast.Compare) and len(c_.ops) == 1 and isinstance(c_.ops[0], ast.Gt) and
+            norm(c_.left).endswith('[-1]') and norm(c_.left)[:-4] in lists]
+    tops = [(fold_in(lh, mx[0].value) if (not isinstance(t_, int) and len(mx) == 1) else t_) for t_ in tops]
+    ctx.inst('R3', lh, 'max-id', (len(mx) == 1 and fold_in(lh, mx[0].value) == 15 and not [t_ for t_ in tops if t_ != 15]) or (not mx and len(tops) == 2 and set(tops) == {15}),
+             'highest base-station id must be 15 (16-bit masks); bounds compared: %s' % tops)
     for lst in lists:
         srt = g.find(lambda n: method_call(n, 'sort') and norm(n.func.value) == lst)
         raises = [n for n in g.nodes if n.kind == 'raise' and lst in ' '.join(k[0] for k in g.fact_keys_at(n))]
